@@ -1,4 +1,5 @@
 #include "type_inference.h"
+#include "../../../common/stack_guard.h"
 #include "../managers/types/manager.h"
 #include "../managers/variables/manager.h"
 #include "interpreter.h"
@@ -178,6 +179,9 @@ TypeInferenceEngine::TypeInferenceEngine(Interpreter &interpreter)
 InferredType TypeInferenceEngine::infer_type(const ASTNode *node) {
     if (!node)
         return InferredType();
+
+    // one level per operand: a long operator chain is a left-deep tree
+    StackGuard::check();
 
     switch (node->node_type) {
     case ASTNodeType::AST_NUMBER:
